@@ -435,10 +435,12 @@ func (c *Checker) Check() (findings []Finding, stats map[string]int) {
 					break
 				}
 			}
-			// remember where each token first appeared
+			// remember where this incarnation first published each token: that is the version in which it
+			// chose it (a token already in the own entry then was inherited from the ring; an incarnation
+			// that re-registers after its entry was removed re-publishes tokens it chose earlier)
 			for _, t := range ce.Tokens {
-				k := fmt.Sprintf("%s|%d", own, t)
-				if _, ok := firstTokenVersion[k]; !ok || !inPrev {
+				k := fmt.Sprintf("%s|%d", v.Writer, t)
+				if _, ok := firstTokenVersion[k]; !ok {
 					had := false
 					if inPrev {
 						for _, pt := range pe.Tokens {
@@ -447,7 +449,9 @@ func (c *Checker) Check() (findings []Finding, stats map[string]int) {
 							}
 						}
 					}
-					if !had {
+					if had {
+						firstTokenVersion[k] = -1
+					} else {
 						firstTokenVersion[k] = v.N
 					}
 				}
@@ -461,7 +465,10 @@ func (c *Checker) Check() (findings []Finding, stats map[string]int) {
 						add("active-with-wrong-token-count", fmt.Sprintf("%s became ACTIVE with %d tokens, configured %d", own, len(ce.Tokens), w.Cfg.NumTokens), d(nil))
 					}
 					for _, t := range ce.Tokens {
-						fv := firstTokenVersion[fmt.Sprintf("%s|%d", own, t)]
+						fv := firstTokenVersion[fmt.Sprintf("%s|%d", v.Writer, t)]
+						if fv < 0 {
+							continue
+						}
 						// the value the writer read in the attempt that committed version fv
 						in, okIn := inOf[fv]
 						if !okIn || in == nil {
